@@ -87,6 +87,18 @@ func main() {
 			f(w, r)
 		}
 	}
+	if *tier == "thorough" && os.Getenv("VERIF_OUT") == "" {
+		res := auditMutants(verifDir, abs, pd.ID)
+		okN := 0
+		for _, a := range res {
+			if a.OK {
+				okN++
+			}
+			fmt.Printf("sensitivity: %-60s expected=%-5s outcome=%s %s\n", a.Patch, a.Expected, a.Outcome, a.Rules)
+		}
+		r.Extra = map[string]any{"sensitivity_audit": res, "sensitivity_as_expected": fmt.Sprintf("%d/%d", okN, len(res))}
+		r.note("sensitivity audit: %d/%d recorded mutants behave as expected (break -> reported, keep -> silent)", okN, len(res))
+	}
 	code := r.finish(verifDir, time.Since(start).Seconds(), seed, pd.Explanation)
 	os.Exit(code)
 }
